@@ -173,3 +173,128 @@ def fn_evaluate(fn, lean_name, cfg_type, member_cfg, member_has_own_evaluate, do
                 "    | .error e => .error e\n"
                 f"    | .ok tape1 => ptEvalMember {member_cfg} s t1 tape1 score_new")
     return head + f"  ptEvalMember {member_cfg} s (s.tr.setScoreNew score_new) s.tape score_new"
+
+
+# ----------------------------------------------------------------------------- EvolutionStrategyOptimizer.iterate / _cross
+
+def _choice_bound(st):
+    """`rnd_int2 = random.choice([i for i in range(0, B) if i not in [self.rnd_int]])` -> Lean term of B"""
+    u = U(st)
+    for b, lean in (("self.n_ind - 1", "n_ind - 1"), ("self.n_ind", "n_ind")):
+        if u == f"rnd_int2 = random.choice([i for i in range(0, {b}) if i not in [self.rnd_int]])":
+            return lean
+    raise Untranslatable(f"_cross: `{u}`")
+
+
+def fn_es_iterate(fn):
+    if _decs(fn) != ["track_new_pos"]:
+        raise Untranslatable(f"ES.iterate: decorators {_decs(fn)}")
+    out = ["/-- `EvolutionStrategyOptimizer.iterate` below `track_new_pos` -/",
+           "def ES_iterate (cross : List Nat → Nat → Tape → Except Err (Pos × PopSt)) (cfg : ESCfg) (s : PopSt) : Except Err (Pos × PopSt) :="]
+    b = fn.body
+    u = [U(x) for x in b]
+    i = 0
+    ind = 2
+    tape = "s.tape"
+    state = set()
+    while i < len(b):
+        pad = " " * ind
+        if u[i] == "self.n_ind = len(self.individuals)":
+            out.append(f"{pad}let n_ind := s.members.length")
+            state.add("n")
+        elif u[i] == "if self.n_ind == 1:\n    self.p_current = self.individuals[0]\n    return self.p_current.iterate()" and "n" in state:
+            out.append(f"{pad}if n_ind = 1 then memberIterate cfg.member s 0 {tape}")
+            out.append(f"{pad}else do")
+            ind += 2
+        elif u[i] == "self.sort_pop_best_score()":
+            out.append(f"{pad}let (pop_sorted, tape) ← popSorted s {tape}")
+            tape = "tape"
+            state.add("sorted")
+        elif u[i] == "self.rnd_int = random.randint(0, len(self.pop_sorted) - 1)" and "sorted" in state and "n" in state:
+            out.append(f"{pad}let (rnd_int, tape) ← takeInt {tape}")
+            out.append(f"{pad}if ¬ rnd_int < n_ind then .error .valueError          -- randint's range: len(pop_sorted) = len(individuals)")
+            out.append(f"{pad}else do")
+            ind += 2
+            state.add("k")
+        elif u[i] == "self.p_current = self.pop_sorted[self.rnd_int]" and "k" in state:
+            state.add("cur")
+        elif u[i] == "total_rate = self.mutation_rate + self.crossover_rate":
+            state.add("total")
+        elif u[i] == "rand = np.random.uniform(low=0, high=total_rate)" and "total" in state:
+            out.append(f"{pad}let (rand, tape) ← takeNpUnif {tape}")
+            state.add("rand")
+        elif u[i] == "if rand <= self.mutation_rate:\n    return self.p_current.iterate()\nelse:\n    return self._cross()" \
+                and {"rand", "cur"} <= state and i == len(b) - 1:
+            out.append(f"{pad}if rand ≤ cfg.mutationRate then memberIterate cfg.member s (pop_sorted.getD rnd_int 0) {tape}")
+            out.append(f"{pad}else cross pop_sorted rnd_int {tape}")
+            return "\n".join(out)
+        else:
+            raise Untranslatable(f"ES.iterate: `{u[i]}` (state {sorted(state)})")
+        i += 1
+    raise Untranslatable("ES.iterate: no final branch")
+
+
+def fn_es_cross(fn):
+    if fn.decorator_list or len(fn.body) != 1 or not isinstance(fn.body[0], ast.While) or U(fn.body[0].test) != "True":
+        raise Untranslatable("ES._cross: not a bare `while True`")
+    b = fn.body[0].body
+    u = [U(x) for x in b]
+    first = b[0]
+    if not (isinstance(first, ast.If) and U(first.test) == "len(self.individuals) > 2" and len(first.body) == 1 and len(first.orelse) == 1):
+        raise Untranslatable(f"ES._cross: `{u[0]}`")
+    hi, lo = _choice_bound(first.body[0]), _choice_bound(first.orelse[0])
+    out = ["/-- `EvolutionStrategyOptimizer._cross` (every path of the `while True` body returns) -/",
+           "def ES_cross (cfg : ESCfg) (s : PopSt) (pop_sorted : List Nat) (rnd_int : Nat) (tape0 : Tape) : Except Err (Pos × PopSt) := do",
+           "  let n_ind := s.members.length",
+           "  let (rnd_int2, tape) ← takeInt tape0",
+           f"  if (decide (rnd_int2 ≠ rnd_int) && decide (rnd_int2 < (if n_ind > 2 then {hi} else {lo}))) = false then .error (protocol \"second-parent\")",
+           "  else do",
+           "    let p_current := pop_sorted.getD rnd_int 0"]
+    ind = 4
+    ver = -1            # version of the python variable `pos_new`
+    member = None       # version stored in p_worst.pos_new
+    cur_is_worst = False
+    seen = set()
+
+    def emit(pad):
+        if member is None or not cur_is_worst:
+            raise Untranslatable("ES._cross: returns without `p_worst.pos_new` / `self.p_current = p_worst`")
+        return [f"{pad}match s.members[p_worst]? with", f"{pad}| none => .error .indexError", f"{pad}| some m =>",
+                f"{pad}  .ok (pos_new{ver}, {{ s with members := s.members.set p_worst {{ m with tr := {{ m.tr with posNew := some pos_new{member} }} }}, cur := p_worst, tape := tape, tr := s.tr.trackNewPos pos_new{ver} }})"]
+    i = 1
+    while i < len(b):
+        pad = " " * ind
+        if u[i] == "p_sec = self.pop_sorted[rnd_int2]":
+            out.append(f"{pad}let p_sec := pop_sorted.getD rnd_int2 0")
+            seen.add("sec")
+        elif u[i] == "p_worst = self.pop_sorted[-1]":
+            out.append(f"{pad}let p_worst := pop_sorted.getD (n_ind - 1) 0")
+            seen.add("worst")
+        elif u[i] == "two_best_pos = [self.p_current.pos_current, p_sec.pos_current]" and "sec" in seen and not cur_is_worst:
+            out.append(f"{pad}let pc ← posCurrentOf s p_current")
+            out.append(f"{pad}let ps ← posCurrentOf s p_sec")
+            seen.add("two")
+        elif u[i] == "pos_new = self.discrete_recombination(two_best_pos)" and "two" in seen:
+            ver += 1
+            out.append(f"{pad}let (c, tape) ← takeChoice pc.length tape")
+            out.append(f"{pad}let pos_new{ver} ← recombine c [pc, ps]")
+        elif u[i] == "self.p_current = p_worst" and "worst" in seen:
+            cur_is_worst = True
+        elif u[i] == "p_worst.pos_new = pos_new" and "worst" in seen and ver >= 0:
+            member = ver
+        elif u[i] == "if self.conv.not_in_constraint(pos_new):\n    return pos_new" and ver >= 0:
+            out.append(f"{pad}let (ok, tape) ← askFeas pos_new{ver} tape")
+            out.append(f"{pad}if ok then")
+            out += emit(pad + "  ")
+            out.append(f"{pad}else do")
+            ind += 2
+        elif u[i] == "pos_new = self.p_current.move_climb(pos_new)" and cur_is_worst and ver >= 0:
+            out.append(f"{pad}let (pos_new{ver + 1}, tape) ← moveClimb cfg.member.geo (some pos_new{ver}) (some 1) s.tape.length tape")
+            ver += 1
+        elif u[i] == "return pos_new" and i == len(b) - 1:
+            out += emit(pad)
+            return "\n".join(out)
+        else:
+            raise Untranslatable(f"ES._cross: `{u[i]}`")
+        i += 1
+    raise Untranslatable("ES._cross: a path does not return")
